@@ -149,17 +149,25 @@ static void c15_gen_common(Tape &t, Case &c, bool large) {
   tr.N(af.scale).N(af.shift);
   tr.I(-1).I((long)kinds.size());
   c.ops.push_back(tr);
-  c.ops.push_back(Op("algo").I(t.below(2)).I(t.below(2)));
+  // driver per side: 0 = exact driver, 1 = direct rational primal simplex, 2 = direct rational dual simplex
+  // (small cases only: the direct rational simplex on hundreds of rows costs minutes)
+  long a1 = t.below(2), a2 = t.below(2);
+  long d1 = (!large && t.chance(1, 4)) ? 1 + (long)t.below(2) : 0;
+  long d2 = (!large && t.chance(1, 4)) ? 1 + (long)t.below(2) : 0;
+  c.ops.push_back(Op("algo").I(a1).I(a2).I(d1).I(d2));
 }
 static void c15_gen(Tape &t, Case &c) { c15_gen_common(t, c, false); }
 static void c15_gen_large(Tape &t, Case &c) { c15_gen_common(t, c, true); }
 
-static bool solve_once(const Model &m, int algo, int &status, Q &value, std::string *err) {
+static bool solve_once(const Model &m, int algo, int driver, int &status, Q &value, std::string *err) {
   mpq_QSprob p = sut_build(m, R_LOAD, err);
   if (!p) return false;
   QArr x(m.n() + m.m()), y(m.m());
   status = 0;
-  int rv = QSexact_solver(p, x.v, y.v, nullptr, algo ? DUAL_SIMPLEX : PRIMAL_SIMPLEX, &status);
+  int rv;
+  if (driver == 1) rv = mpq_QSopt_primal(p, &status);
+  else if (driver == 2) rv = mpq_QSopt_dual(p, &status);
+  else rv = QSexact_solver(p, x.v, y.v, nullptr, algo ? DUAL_SIMPLEX : PRIMAL_SIMPLEX, &status);
   QSexact_set_precision(128);
   bool ok = rv == 0;
   if (ok && status == QS_LP_OPTIMAL) ok = mpq_QSget_objval(p, qp(value)) == 0;
@@ -184,15 +192,21 @@ static void c15_run(const Case &c, Result &r) {
   static const char *kn[] = {"perm-rows", "perm-cols", "scale-rows+", "scale-rows-", "substitute", "negate-objective", "duplicate-row", "redundant-row", "split-equalities"};
   for (size_t k = 0; k < tr.i.size(); k++) { if (tr.i[k] == -1) { if (k + 1 < tr.i.size()) nkinds = (int)tr.i[k + 1]; break; } r.label(std::string("transform:") + kn[tr.i[k] % 9]); }
   int a1 = 0, a2 = 1;
-  if (pos < c.ops.size() && c.ops[pos].k == "algo" && c.ops[pos].i.size() >= 2) { a1 = (int)c.ops[pos].i[0]; a2 = (int)c.ops[pos].i[1]; }
+  int d1 = 0, d2 = 0;
+  if (pos < c.ops.size() && c.ops[pos].k == "algo" && c.ops[pos].i.size() >= 2) {
+    a1 = (int)c.ops[pos].i[0]; a2 = (int)c.ops[pos].i[1];
+    if (c.ops[pos].i.size() >= 4) { d1 = (int)c.ops[pos].i[2] % 3; d2 = (int)c.ops[pos].i[3] % 3; }
+  }
+  static const char *dn[] = {"exact", "direct-primal", "direct-dual"};
+  r.label(std::string("driver:") + dn[d1] + "/" + dn[d2]);
   bool large = m1.m() >= 200 || m1.n() >= 400;
   r.label(large ? "size:large" : "size:small");
   r.label("family:" + family.substr(0, family.find('/')));
   int s1 = 0, s2 = 0;
   Q v1, v2;
   std::string err;
-  if (!solve_once(m1, a1, s1, v1, &err)) { r.fail("solve-error:original", err); return; }
-  if (!solve_once(m2, a2, s2, v2, &err)) { r.fail("solve-error:transformed", err); return; }
+  if (!solve_once(m1, a1, d1, s1, v1, &err)) { r.fail("solve-error:original", err); return; }
+  if (!solve_once(m2, a2, d2, s2, v2, &err)) { r.fail("solve-error:transformed", err); return; }
   auto def = [](int s) { return s == QS_LP_OPTIMAL || s == QS_LP_INFEASIBLE || s == QS_LP_UNBOUNDED; };
   r.label(strprintf("status:%d/%d", s1, s2));
   if (!def(s1) || !def(s2)) {
